@@ -176,6 +176,8 @@ class C04(Check):
         model = minor_ref.Model(gene, p, f, cnlist, majors, considered, phases or None)
         v, info = minor_ref.judge(model, reported, planted=planted if not devs else None)
         v2 = []
+        if len(sols) > ms:
+            v2.append(("minor/more-refinements-than-asked", f"{len(sols)} refinements of one major solution with max_solutions={ms}"))
         for s in sols:   # chain consistency of the returned objects
             if s.major_solution is not major:
                 v2.append(("minor/major-solution-link", "returned solution does not reference the major solution it refines"))
